@@ -1,24 +1,32 @@
 """Execution legs: how a driver is built and run (native, unoptimised, Miri, ASan,
-valgrind memcheck, TSan). One sanitizer family per build; the same driver/workload
-per build. Imported by ./check."""
+valgrind memcheck, TSan). One sanitizer family per build; the same driver / workload per
+build. Imported by ./check.
+
+A sanitizer / interpreter report is a violation of the property whose workload was running
+only if the report points into the repository under test (its source path appears in the
+report); a report entirely inside the harness is a harness error (inconclusive)."""
 import json
 import os
 import re
+import shutil
 import subprocess
 import time
+from concurrent.futures import ThreadPoolExecutor
+
+GUARD = "ndarray_interp_verif"
 
 
 def run_leg(C, prop, conf, tier, leg, scale, opts, replay_case):
     if leg in ("native", "o0"):
         return native_leg(C, prop, conf, tier, leg, scale, opts, replay_case)
     if leg == "miri":
-        return miri_leg(C, prop, conf, tier, leg, scale, opts, replay_case)
+        return miri_leg(C, prop, conf, tier, leg, scale, opts)
     if leg == "asan":
-        return asan_leg(C, prop, conf, tier, leg, scale, opts, replay_case)
-    if leg == "valgrind":
-        return valgrind_leg(C, prop, conf, tier, leg, scale, opts, replay_case)
+        return san_leg(C, prop, conf, tier, leg, scale, opts, "address")
     if leg == "tsan":
-        return tsan_leg(C, prop, conf, tier, leg, scale, opts, replay_case)
+        return san_leg(C, prop, conf, tier, leg, scale, opts, "thread")
+    if leg == "valgrind":
+        return valgrind_leg(C, prop, conf, tier, leg, scale, opts)
     raise C.Inconclusive(f"unknown leg {leg}")
 
 
@@ -33,44 +41,248 @@ def collect(C, prop, conf, tier, leg, od, rc, out, wall, oracle_wanted, extra_in
             v["leg"] = leg
             viols.append(v)
         ev = max(1, oracle["events"])
-        if oracle["inconclusive"] > 0.02 * ev + 2 and any(k.startswith("checker-error") for k in oracle["counts"]):
-            raise C.Inconclusive(f"offline checker errors: {oracle['counts']}")
-        # the logs can be large: drop them once checked
+        errs = {k: v for k, v in oracle["counts"].items() if k.startswith("checker-error")}
+        if errs:
+            raise C.Inconclusive(f"offline checker errors: {errs}")
+        if oracle["inconclusive"] > 0.05 * ev + 5:
+            raise C.Inconclusive(f"offline checker: {oracle['inconclusive']} of {ev} events inconclusive")
         for f in os.listdir(od):
             if f.startswith("log-"):
                 os.remove(os.path.join(od, f))
-    info = {"leg": leg, "scale": scale_of(cov), "evaluations": cov["coverage"]["evaluations"],
+    info = {"leg": leg, "evaluations": cov["coverage"]["evaluations"],
             "violations": len(viols), "wall_s": round(wall, 2)}
     if extra_info:
         info.update(extra_info)
     return cov, viols, oracle, info
 
 
-def scale_of(cov):
-    return cov["coverage"].get("scale")
-
-
 def native_leg(C, prop, conf, tier, leg, scale, opts, replay_case):
-    bindir = C.cargo_build(leg, [conf["bin"]])
+    if conf.get("compile_assert") and leg == "native":
+        try:
+            bindir = C.cargo_build(leg, [conf["bin"]])
+        except C.Inconclusive as e:
+            msg = str(e)
+            if "E0277" in msg and ("Send" in msg or "Sync" in msg) and "c17" in msg:
+                # the compile-time clause of the property: a type-level fact, reported as such
+                od = C.out_dir(prop, tier, leg)
+                v = {"sig": f"{prop}:not-send-sync", "what": "interpolator over thread-safe storage is not Send + Sync "
+                     "(compile-time assertion of the driver failed)", "case": None, "leg": leg,
+                     "replay": {"compiler_output": msg[-4000:]}}
+                cov = {"property_id": prop, "tier": tier, "seed": C.SEED,
+                       "coverage": {"evaluations": 1, "distinct_nontrivial": 0, "distinct": 0,
+                                    "rule": "compile-time assertion", "samples": [], "counters": {},
+                                    "histograms": {}}}
+                return cov, [v], None, {"leg": leg, "evaluations": 1, "violations": 1, "wall_s": 0.0}
+            raise
+    else:
+        bindir = C.cargo_build(leg, [conf["bin"]])
     od, rc, out, wall = C.run_driver(bindir, conf["bin"], prop, tier, leg, scale=scale,
                                      only=replay_case, extra_args=opts.get("args"),
-                                     timeout=opts.get("timeout", 3600))
+                                     timeout=opts.get("timeout", 7200))
     if rc != 0:
         raise C.Inconclusive(f"driver {conf['bin']} leg {leg} exited with {rc} (harness error):\n" + out[-3000:])
     return collect(C, prop, conf, tier, leg, od, rc, out, wall, conf.get("oracle", False))
 
 
-def miri_leg(C, prop, conf, tier, leg, scale, opts, replay_case):
-    raise C.Inconclusive("miri leg not implemented yet")
+def merge_cov(covs):
+    """merge coverage.json of several shard processes"""
+    base = json.loads(json.dumps(covs[0]))
+    c = base["coverage"]
+    for other in covs[1:]:
+        o = other["coverage"]
+        for k in ("evaluations", "distinct", "distinct_nontrivial"):
+            c[k] = c.get(k, 0) + o.get(k, 0)
+        for k, v in o.get("counters", {}).items():
+            c.setdefault("counters", {})[k] = c.get("counters", {}).get(k, 0) + v
+        for h, m in o.get("histograms", {}).items():
+            d = c.setdefault("histograms", {}).setdefault(h, {})
+            for k, v in m.items():
+                d[k] = d.get(k, 0) + v
+        for k, v in o.get("maxima", {}).items():
+            c.setdefault("maxima", {})[k] = max(c.get("maxima", {}).get(k, v), v)
+        c["samples"] = (c.get("samples", []) + o.get("samples", []))[:8]
+    return base
 
 
-def asan_leg(C, prop, conf, tier, leg, scale, opts, replay_case):
-    raise C.Inconclusive("asan leg not implemented yet")
+def repo_frames(C, text):
+    """lines of a report that point into the repository under test"""
+    pat = re.escape(C.REPO.rstrip("/")) + r"/src/[\w/]+\.rs:\d+"
+    return sorted(set(re.findall(pat, text)))
 
 
-def valgrind_leg(C, prop, conf, tier, leg, scale, opts, replay_case):
-    raise C.Inconclusive("valgrind leg not implemented yet")
+def run_shards(C, cmd_for, prop, tier, leg, shards, timeout):
+    """run `shards` processes in parallel; cmd_for(i, out_dir) -> (cmd, env)"""
+    ods = []
+    for i in range(shards):
+        d = os.path.join(C.VERIF, "run", "out", f"{prop}-{tier}-{leg}-{C.SEED}-s{i}")
+        shutil.rmtree(d, ignore_errors=True)
+        os.makedirs(d)
+        ods.append(d)
+
+    def one(i):
+        cmd, env, cwd = cmd_for(i, ods[i])
+        t0 = time.time()
+        try:
+            p = subprocess.run(cmd, cwd=cwd, env=env, stdout=subprocess.PIPE, stderr=subprocess.STDOUT,
+                               text=True, timeout=timeout)
+            return i, p.returncode, p.stdout, time.time() - t0
+        except subprocess.TimeoutExpired as e:
+            return i, -999, (e.stdout or "") if isinstance(e.stdout, str) else "", time.time() - t0
+
+    with ThreadPoolExecutor(max_workers=min(shards, C.JOBS)) as ex:
+        results = list(ex.map(one, range(shards)))
+    return ods, results
 
 
-def tsan_leg(C, prop, conf, tier, leg, scale, opts, replay_case):
-    raise C.Inconclusive("tsan leg not implemented yet")
+def sanitizer_outcome(C, prop, leg, tool, marker, results, ods):
+    """turn process results into (covs, violations); raises Inconclusive for harness errors"""
+    covs, viols = [], []
+    for (i, rc, out, wall) in results:
+        if rc == -999:
+            raise C.Inconclusive(f"watchdog: {tool} shard {i} timed out")
+        cov, v = C.read_driver_results(ods[i], prop, leg)
+        viols.extend(v)
+        reported = marker(out, rc)
+        if reported:
+            frames = repo_frames(C, out)
+            tail = "\n".join(out.splitlines()[-80:])
+            if frames or "ndarray_interp" in out:
+                first = frames[0] if frames else "ndarray_interp"
+                viols.append({"sig": f"{prop}:{tool}-report", "leg": leg, "case": None,
+                              "what": f"{tool} reported an error reached through the repository ({first}): "
+                                      + reported[:300],
+                              "replay": {"tool": tool, "shard": i, "frames": frames[:10], "report_tail": tail[-6000:]}})
+                continue
+            raise C.Inconclusive(f"{tool} report without a frame in the repository under test (harness error):\n" + tail[-3000:])
+        if rc != 0:
+            raise C.Inconclusive(f"{tool} shard {i} exited with {rc} without a report:\n" + "\n".join(out.splitlines()[-40:]))
+        if cov is None:
+            raise C.Inconclusive(f"{tool} shard {i} produced no coverage")
+        covs.append(cov)
+    if not covs:
+        # every shard reported: still need a coverage record
+        covs = [{"property_id": prop, "coverage": {"evaluations": 0, "distinct": 0, "distinct_nontrivial": 0,
+                                                   "samples": [], "counters": {}, "histograms": {}, "rule": ""}}]
+    return covs, viols
+
+
+def miri_leg(C, prop, conf, tier, leg, scale, opts):
+    bd = C.sync_tree()
+    shards = int(opts.get("shards", 1))
+    flags = "-Zmiri-deterministic-floats -Zmiri-disable-isolation"
+    if opts.get("miri_flags"):
+        flags += " " + opts["miri_flags"]
+    # the hook is off in this leg: Miri itself is the oracle for the unchecked cast
+    rustflags = "" if opts.get("no_hook", True) else f"--cfg {GUARD}"
+    env = C.env_offline({"MIRIFLAGS": flags, "RUSTFLAGS": rustflags,
+                         "CARGO_TARGET_DIR": os.path.join(bd, "target-miri")})
+    t0 = time.time()
+    pre = subprocess.run(["cargo", "+nightly", "miri", "setup"], cwd=bd, env=env, stdout=subprocess.PIPE,
+                         stderr=subprocess.STDOUT, text=True)
+    if pre.returncode != 0:
+        raise C.Inconclusive("cargo miri setup failed:\n" + pre.stdout[-2000:])
+
+    def cmd_for(i, od):
+        cmd = ["cargo", "+nightly", "miri", "run", "--offline", "-q", "-p", "vhb", "--bin", conf["bin"], "--",
+               "--tier", tier, "--seed", str(C.SEED), "--out", od, "--threads", "1", "--scale", str(scale),
+               "--leg", leg, "--shard", str(i), "--shards", str(shards)]
+        for k, v in (opts.get("args") or {}).items():
+            cmd += ["--" + k, str(v)]
+        return cmd, env, bd
+
+    # build once (first shard alone) so that the parallel shards do not fight over the lock
+    ods, results = run_shards(C, cmd_for, prop, tier, leg, shards, opts.get("timeout", 3600))
+    wall = time.time() - t0
+
+    def marker(out, rc):
+        m = re.search(r"error: Undefined Behavior:.*|error: unsupported operation:.*|error: the evaluated program.*", out)
+        return m.group(0) if m else None
+
+    covs, viols = sanitizer_outcome(C, prop, leg, "miri", marker, results, ods)
+    cov = merge_cov(covs)
+    C.log(f"[miri] {prop}: {shards} shard(s), evaluations={cov['coverage']['evaluations']} "
+          f"reports={sum(1 for v in viols if 'miri-report' in v.get('sig', ''))} in {wall:.1f}s")
+    info = {"leg": leg, "tool": "miri (UB / data-race interpreter)", "flags": flags, "shards": shards,
+            "evaluations": cov["coverage"]["evaluations"], "violations": len(viols), "wall_s": round(wall, 2),
+            "counters": cov["coverage"].get("counters", {})}
+    return cov, viols, None, info
+
+
+def san_leg(C, prop, conf, tier, leg, scale, opts, which):
+    bd = C.sync_tree()
+    triple = "x86_64-unknown-linux-gnu"
+    tdir = os.path.join(bd, "target-" + leg)
+    rustflags = f"--cfg {GUARD} -Zsanitizer={which} -Cforce-frame-pointers=yes"
+    cmd = ["cargo", "+nightly", "build", "--offline", "--release", "-p", "vhb", "--bin", conf["bin"],
+           "--target", triple]
+    if which == "thread":
+        cmd += ["-Zbuild-std"]
+    env = C.env_offline({"RUSTFLAGS": rustflags, "CARGO_TARGET_DIR": tdir})
+    t0 = time.time()
+    p = subprocess.run(cmd, cwd=bd, env=env, stdout=subprocess.PIPE, stderr=subprocess.STDOUT, text=True)
+    if p.returncode != 0:
+        raise C.Inconclusive(f"{leg} build failed:\n" + "\n".join(p.stdout.splitlines()[-40:]))
+    C.log(f"[build:{leg}] {conf['bin']} ok in {time.time() - t0:.1f}s")
+    binpath = os.path.join(tdir, triple, "release", conf["bin"])
+    shards = int(opts.get("shards", 4))
+    renv = dict(os.environ)
+    if which == "address":
+        renv["ASAN_OPTIONS"] = "halt_on_error=1:detect_leaks=0:exitcode=77:abort_on_error=0"
+    else:
+        renv["TSAN_OPTIONS"] = "halt_on_error=1:exitcode=66:second_deadlock_stack=1"
+
+    def cmd_for(i, od):
+        c = [binpath, "--tier", tier, "--seed", str(C.SEED), "--out", od, "--threads", str(opts.get("threads", 1)),
+             "--scale", str(scale), "--leg", leg, "--shard", str(i), "--shards", str(shards)]
+        for k, v in (opts.get("args") or {}).items():
+            c += ["--" + k, str(v)]
+        return c, renv, C.VERIF
+
+    ods, results = run_shards(C, cmd_for, prop, tier, leg, shards, opts.get("timeout", 3600))
+    wall = time.time() - t0
+    tool = "AddressSanitizer" if which == "address" else "ThreadSanitizer"
+
+    def marker(out, rc):
+        m = re.search(r"(ERROR: AddressSanitizer:.*|WARNING: ThreadSanitizer:.*)", out)
+        return m.group(0) if m else None
+
+    covs, viols = sanitizer_outcome(C, prop, leg, tool, marker, results, ods)
+    cov = merge_cov(covs)
+    C.log(f"[{leg}] {prop}: {shards} shard(s), evaluations={cov['coverage']['evaluations']} in {wall:.1f}s")
+    info = {"leg": leg, "tool": tool, "shards": shards, "evaluations": cov["coverage"]["evaluations"],
+            "violations": len(viols), "wall_s": round(wall, 2), "counters": cov["coverage"].get("counters", {})}
+    return cov, viols, None, info
+
+
+def valgrind_leg(C, prop, conf, tier, leg, scale, opts):
+    bindir = C.cargo_build("native", [conf["bin"]])
+    binpath = os.path.join(bindir, conf["bin"])
+    shards = int(opts.get("shards", 8))
+    t0 = time.time()
+
+    def cmd_for(i, od):
+        c = ["valgrind", "--tool=memcheck", "--error-exitcode=9", "--quiet", "--num-callers=30",
+             "--track-origins=yes", "--leak-check=no",
+             binpath, "--tier", tier, "--seed", str(C.SEED), "--out", od, "--threads", "1",
+             "--scale", str(scale), "--leg", leg, "--shard", str(i), "--shards", str(shards)]
+        for k, v in (opts.get("args") or {}).items():
+            c += ["--" + k, str(v)]
+        return c, dict(os.environ), C.VERIF
+
+    ods, results = run_shards(C, cmd_for, prop, tier, leg, shards, opts.get("timeout", 3600))
+    wall = time.time() - t0
+
+    def marker(out, rc):
+        m = re.search(r"==\d+== (Invalid (read|write).*|Conditional jump or move depends on uninitialised.*|"
+                      r"Use of uninitialised value.*|Invalid free.*|Mismatched free.*|Source and destination overlap.*)", out)
+        if m:
+            return m.group(1)
+        return "valgrind error exit" if rc == 9 else None
+
+    covs, viols = sanitizer_outcome(C, prop, leg, "memcheck", marker, results, ods)
+    cov = merge_cov(covs)
+    C.log(f"[valgrind] {prop}: {shards} shard(s), evaluations={cov['coverage']['evaluations']} in {wall:.1f}s")
+    info = {"leg": leg, "tool": "valgrind memcheck", "shards": shards,
+            "evaluations": cov["coverage"]["evaluations"], "violations": len(viols), "wall_s": round(wall, 2),
+            "counters": cov["coverage"].get("counters", {})}
+    return cov, viols, None, info
